@@ -152,7 +152,7 @@ def run_case(case):
                 viol("rule-not-honoured", f"{o.itype}/{o.sid} entities {o.entities}: kernel differs from per-integral-rule reference: err={o.err:.3e} > {o.bound:.1e}; rules {o.info}")
             elif o.status == "unsupported":
                 count("oracle_unsupported")
-        if kind == "mix" and len(recipe["p"]["rules"]) == 2 and recipe["p"]["rules"][0] != recipe["p"]["rules"][1]:
+        if kind == "mix" and recipe["b"] == "rule_mix" and len(recipe["p"]["rules"]) == 2 and recipe["p"]["rules"][0] != recipe["p"]["rules"][1]:
             # discrimination: with the two rules swapped the reference must be visibly different
             r2 = dict(recipe, p=dict(recipe["p"], rules=list(recipe["p"]["rules"])[::-1]))
             b2 = corpus.build(r2)
@@ -216,6 +216,12 @@ def cases_for(tier, s):
         R.append({"kind": "mix", "recipe": {"b": "rule_mix", "cell": cell, "p": {"rules": [["default", 1], ["default", 3], ["default", 6]], "shared": True, "sid": 2}}})
         R.append({"kind": "qelem", "recipe": {"b": "quadrature_element", "cell": cell, "p": {"degree": 3}}})
         R.append({"kind": "qelem", "recipe": {"b": "quadrature_element_vec", "cell": cell, "p": {"degree": 2}}})
+    # a one-point rule and a higher rule sharing a coefficient (selective reduced integration), both declaration orders
+    for cell in ("interval", "triangle", "quadrilateral", "tetrahedron", "hexahedron"):
+        for lo_first in (True, False):
+            for q_lo in (0, 1):
+                R.append({"kind": "mix", "recipe": {"b": "one_point_mix", "cell": cell, "p": {"q_hi": 2 + (q_lo + lo_first) % 3, "q_lo": q_lo, "lo_first": lo_first, "degree": 1 + q_lo}}})
+        R.append({"kind": "mix", "recipe": {"b": "one_point_mix", "cell": cell, "p": {"itype": "exterior_facet" if cell != "interval" else "cell", "q_hi": 3, "q_lo": 1}}})
     R.append({"kind": "mix", "recipe": {"b": "rule_mix", "cell": "interval", "p": {"rules": [["GLL", 4], ["default", 4]], "shared": True}}})
     R.append({"kind": "mix", "recipe": {"b": "rule_mix", "cell": "quadrilateral", "p": {"rules": [["GLL", 3], ["default", 3]], "shared": False}}})
     for i, c in enumerate(R):
